@@ -55,6 +55,12 @@ def run_c04(ctx):
     for c in pc:
         c["weights"] = "plans"
     rc += pc
+    # direct Operator.apply with long-lived operator objects: refusal and successor for a state do not depend on the
+    # states the operator met before (initial states that leave some fluents without a value included)
+    oc = random_hist(ctx, 80 if quick else 1600, 16, base=56000, sparse_init=True)
+    for c in oc:
+        c["weights"] = "opreuse"
+    rc += oc
     tf2 = ctx.drive("hist", rc, hashseeds=(0, 1, 2) if quick else tuple(range(16)))
     ctx.validate(tf2, {c["id"]: c for c in rc}, driver="hist")
     _stats(tf, ctx, {"RunPlan", "ExportTrajectory", "Apply"})
@@ -179,6 +185,8 @@ def run_c10(ctx):
     tf = ctx.drive("plan", cases, hashseeds=(0, 1, 2) if quick else tuple(range(16)))
     ctx.validate(tf, {c["id"]: c for c in cases}, driver="plan")
     rc = random_hist(ctx, 100 if quick else 2000, 12, base=30000)
+    # names that differ only in where the hyphen-separated words are cut into tokens: (q-o1 o2) / (q o1 o2)
+    rc += [gen_hist.gen_case(ctx.seed, 33000 + i, n_ops=12, hyphen=True) for i in range(50 if quick else 1000)]
     # trajectories whose fluent values are not short decimals (0.1 increments, thirds, 1e-5 multiples)
     rc += [gen_hist.gen_case(ctx.seed, 35000 + i, n_ops=12, noise=True) for i in range(60 if quick else 1200)]
     for c in rc:
